@@ -6,8 +6,8 @@ import ast
 from ..core import AnalysisError, AnchorMissing, FuncRef, Program, registry, unwrap_partial
 from ..flow import Flow
 from ..report import Collector
-from ..terms import Term, is_call_to, is_global, show, subterms
-from .common import const_of, fterms, has_subterm, short
+from ..terms import Term, _substitute, fuse_deep, is_call_to, is_global, show, subterms
+from .common import const_of, fterms, has_subterm, mask_positions, short
 
 SELF = ("param", "self")
 RNG_DRAWS = {"choice", "integers", "random", "shuffle", "permutation", "permuted", "uniform", "normal", "standard_normal", "bytes", "spawn",
@@ -322,48 +322,50 @@ def rule_c13_choice(prog: Program, col: Collector) -> None:
     if not main:
         col.undecidable(ref.where(), ref.short, "greedy choice not of the form next(act for act, val in zip(...) if val == extremum)")
         return
-    v = main[-1].value
-    # expected family: next(<gen act for (act, val) in zip(VALID, VALUES) if val == EXT>)
+    # normal form: next(a for a in VALID if KEY(a) == EXT) -- `pair each action with its value, filter the pairs` is read as this
+    # (terms.fuse_deep), so zip(valid, values) / a key computed inside the filter / an unrolled list are one shape
+    v = fuse_deep(main[-1].value, stop=lambda x: _is_valid_list(x, G))
     if not (is_call_to(v, "next") and v[2] and v[2][0][0] == "comp" and len(v[2][0][3]) == 1):
         col.undecidable(ref.where(), ref.short, f"greedy choice not of the form next(act for act, val in zip(...) if val == extremum): {short(v, 80)}")
         return
     comp = v[2][0]
-    elem, it, conds = comp[3][0]
+    elem, valid_t, conds = comp[3][0]
     if len(conds) == 1 and conds[0][0] == "call" and conds[0][1][0] == "global" and conds[0][1][1].rsplit(".", 1)[-1] in ("isclose", "allclose") \
             and len(conds[0][2]) >= 2:
         col.check(False, ref.where(), ref.short, "the candidate filter is exact equality with the extremum (found a tolerance comparison)", construct="greedy-tolerance-tie",
                   necessity="np.isclose has a relative tolerance of 1e-5: a lower-index action whose reward is strictly worse than the extremum can be returned")
         conds = (("cmp", "==", conds[0][2][0], conds[0][2][1]),)
-    if not (is_call_to(it, "zip") and len(it[2]) == 2 and len(conds) == 1 and conds[0][0] == "cmp" and conds[0][1] == "=="):
-        col.undecidable(ref.where(), ref.short, "greedy candidates are not zip(valid_actions, action_values) filtered by equality")
+    if not (len(conds) == 1 and conds[0][0] == "cmp" and conds[0][1] == "=="):
+        col.undecidable(ref.where(), ref.short, "greedy candidates are not filtered by equality with the extremum")
         return
-    valid_t, values_t = it[2]
-    act_e, val_e = ("index", elem, ("const", 0)), ("index", elem, ("const", 1))
-    col.check(comp[2] == act_e and _is_valid_list(valid_t, G), ref.where(), ref.short,
+    col.check(comp[2] == elem and _is_valid_list(valid_t, G), ref.where(), ref.short,
               "candidates are the valid actions in ascending index order and the action (not the value) is returned", construct="greedy-order",
               necessity="ties go to the lowest index")
     cond = conds[0]
-    ext = cond[3] if cond[2] == val_e else (cond[2] if cond[3] == val_e else None)
-    if ext is None:
-        col.undecidable(ref.where(), ref.short, "equality filter does not compare the candidate's value")
+    key, ext = (cond[2], cond[3]) if has_subterm(cond[2], elem) else (cond[3], cond[2])
+    if not has_subterm(key, elem) or has_subterm(ext, elem):
+        col.undecidable(ref.where(), ref.short, "equality filter does not compare the candidate's value with a candidate-independent extremum")
         return
-    # values: [self._next_action_value(gym, act) for act in valid_actions]
-    okv = False
+    # key: self._next_action_value(gym, act)
     helper = None
-    if values_t[0] == "comp" and len(values_t[3]) == 1:
-        e2, it2, c2 = values_t[3][0]
-        call = values_t[2]
-        if it2 == valid_t and not c2 and call[0] == "call" and call[1][0] == "attr" and call[1][1] == SELF and call[2] == (G, e2):
-            okv = True
-            helper = members.get(call[1][2])
+    okv = key[0] == "call" and key[1][0] == "attr" and key[1][1] == SELF and key[2] == (G, elem) and not key[3]
+    if okv:
+        helper = members.get(key[1][2])
+
+    def keys_over_valid(t: Term) -> bool:
+        """[KEY(a) for a in VALID]: the same key, over every valid action."""
+        return t[0] == "comp" and len(t[3]) == 1 and t[3][0][1] == valid_t and not t[3][0][2] and _substitute(t[2], {t[3][0][0]: elem}) == key
+
     col.check(okv, ref.where(), ref.short, "action_values[i] is the look-ahead value of valid_actions[i] (same order)", construct="greedy-values",
               necessity="values must be paired with their own actions")
     # extremum polarity
     worst = ("attr", SELF, "worst")
-    mx = ("call", ("global", "max"), (values_t,), ())
-    mn = ("call", ("global", "min"), (values_t,), ())
-    mxn = ("call", ("global", "numpy.max"), (values_t,), ())
-    mnn = ("call", ("global", "numpy.min"), (values_t,), ())
+
+    def extremum(t: Term):
+        if t[0] == "call" and t[1] in (("global", "max"), ("global", "min"), ("global", "numpy.max"), ("global", "numpy.min")) and len(t[2]) == 1 and not t[3] \
+                and keys_over_valid(t[2][0]):
+            return t[1][1].rsplit(".", 1)[-1]
+        return None
     okp = None
     if ext[0] in ("ifexp", "phi"):
         t, a, b = ext[1], ext[2], ext[3]
@@ -372,8 +374,9 @@ def rule_c13_choice(prog: Program, col: Collector) -> None:
             t, neg = t[2], not neg
         if t == worst:
             when_worst, when_not = (b, a) if neg else (a, b)
-            okp = when_not in (mx, mxn) and when_worst in (mn, mnn)
-    if okp is None and ext in (mx, mxn, mn, mnn):
+            if extremum(when_worst) is not None and extremum(when_not) is not None:
+                okp = extremum(when_not) == "max" and extremum(when_worst) == "min"
+    if okp is None and extremum(ext) is not None:
         okp = False       # the extremum does not depend on `worst` at all: one of 'greedy' / 'greedy_worst' follows the wrong rule
     if okp is None:
         col.undecidable(ref.where(), ref.short, f"extremum not of the form max(..) if not self.worst else min(..): {short(ext, 80)}")
@@ -405,30 +408,25 @@ def rule_c13_choice(prog: Program, col: Collector) -> None:
     G = _gym_param(ref)
     ft = fterms(prog, ref)
     rets = list(ft.of_kind("return"))
-    v = rets[0].value if len(rets) == 1 else ("unknown", "")
-    if not (is_call_to(v, "next") and v[2] and v[2][0][0] == "comp" and len(v[2][0][3]) == 1 and is_call_to(v[2][0][3][0][1], "zip")):
+    v = fuse_deep(rets[0].value, stop=lambda x: _is_valid_list(x, G)) if len(rets) == 1 else ("unknown", "")
+    if not (is_call_to(v, "next") and v[2] and v[2][0][0] == "comp" and len(v[2][0][3]) == 1):
         col.undecidable(ref.where(), ref.short, f"largest choice not of the form next(act for act, coal in zip(...) if len(coal) == max): {short(v, 80)}")
         return
+    # normal form (terms.fuse_deep): next(a for a in VALID if len(explorable_coalitions[a]) == max(len(explorable_coalitions[b]) for b in VALID))
     comp = v[2][0]
-    elem, it, conds = comp[3][0]
-    valid_t, coals_t = it[2] if len(it[2]) == 2 else (None, None)
-    act_e, coal_e = ("index", elem, ("const", 0)), ("index", elem, ("const", 1))
-    okc = False
-    if coals_t is not None and coals_t[0] == "comp" and len(coals_t[3]) == 1:
-        e2, it2, c2 = coals_t[3][0]
-        okc = it2 == valid_t and not c2 and coals_t[2] == ("index", ("attr", G, "explorable_coalitions"), e2)
-    col.check(okc and comp[2] == act_e and valid_t is not None and _is_valid_list(valid_t, G), ref.where(), ref.short,
-              "candidates pair each valid action (ascending) with explorable_coalitions[action]", construct="largest-pairs",
-              necessity="sizes must be those of the coalitions the actions would reveal; ties to the lowest index")
-    okm = False
+    elem, valid_t, conds = comp[3][0]
+    size = ("call", ("global", "len"), (("index", ("attr", G, "explorable_coalitions"), elem),), ())
+    okc = okm = False
     if len(conds) == 1 and conds[0][0] == "cmp" and conds[0][1] == "==":
         l, r = conds[0][2], conds[0][3]
-        ln = ("call", ("global", "len"), (coal_e,), ())
-        other = r if l == ln else (l if r == ln else None)
-        if other is not None:
-            okm = other == ("call", ("global", "max"), (("call", ("global", "map"), (("global", "len"), coals_t), ()),), ()) or \
-                (is_call_to(other, "max") and len(other[2]) == 1 and other[2][0][0] == "comp" and
-                 is_call_to(other[2][0][2], "len") and other[2][0][3][0][1] == coals_t)
+        okc = size in (l, r)
+        other = r if l == size else (l if r == size else None)
+        if other is not None and is_call_to(other, "max", "numpy.max") and len(other[2]) == 1 and not other[3]:
+            ks = other[2][0]
+            okm = ks[0] == "comp" and len(ks[3]) == 1 and ks[3][0][1] == valid_t and not ks[3][0][2] and _substitute(ks[2], {ks[3][0][0]: elem}) == size
+    col.check(okc and comp[2] == elem and _is_valid_list(valid_t, G), ref.where(), ref.short,
+              "candidates pair each valid action (ascending) with explorable_coalitions[action]", construct="largest-pairs",
+              necessity="sizes must be those of the coalitions the actions would reveal; ties to the lowest index")
     col.check(okm, ref.where(), ref.short, "the size compared is the MAXIMAL size among the valid coalitions", construct="largest-max",
               necessity="'largest' picks a largest unknown coalition (a min passes the suite: all sizes tie on the test game's first step only)")
 
@@ -454,7 +452,8 @@ def rule_c13_expected_greedy(prog: Program, col: Collector) -> None:
     mean1 = ("call", ("global", "numpy.mean"), (E,), (("axis", ("const", 1)),))
     mean1b = ("call", ("attr", E, "mean"), (), (("axis", ("const", 1)),))
     mean1c = ("call", ("attr", E, "mean"), (("const", 1),), ())
-    means = (mean1, mean1b, mean1c)
+    mean1d = ("call", ("global", "numpy.mean"), (E, ("const", 1)), ())
+    means = (mean1, mean1b, mean1c, mean1d)
     # local names are found through the code's own structure (robust to renaming):
     #   chosen = CANDS[IDX][-1];  seq.append(chosen);  CANDS is the third argument of the stacked-gaps call
     cands_name = idx_name = None
@@ -489,8 +488,9 @@ def rule_c13_expected_greedy(prog: Program, col: Collector) -> None:
             # randomised tie-break: candidates = arange(n)[mean - min(mean) < EPS]
             c = v[2][0] if v[2] else ("unknown", "")
             okr = False
-            if c[0] == "index" and is_call_to(c[1], "numpy.arange") and c[2][0] == "cmp" and c[2][1] in ("<", "<="):
-                l = c[2][2]
+            mp = mask_positions(c)
+            if mp is not None and mp[0][0] == "cmp" and mp[0][1] in ("<", "<=") and mp[1] in (None, ("index", ("attr", E, "shape"), ("const", 0)), ("call", ("global", "len"), (E,), ())):
+                l = mp[0][2]
                 okr = l[0] == "bin" and l[1] == "-" and l[2] in means and is_call_to(l[3], "numpy.min", "min") and l[3][2] and l[3][2][0] in means
             det += 1
             col.check(okr, ref.where(e.node), ref.short, "the randomised branch chooses among candidates within EPSILON of the MIN mean gap",
